@@ -95,6 +95,8 @@ def lean_phase(run, prop, meta_errors):
     """build and audit the theorems of this property; returns list of broken obligations"""
     broken = []
     for e in meta_errors:
+        is_probe = "Probes" in str(e.get("lean", ""))
+        if is_probe != (run.pid == "C13"): continue      # the probe translator concerns C13 only, the cipher translator everything else
         broken.append("translator: %s: %s" % (e.get("lean"), e.get("error", "")[:200]))
     mods = prop.get("modules", [])
     thms = prop.get("theorems", [])
@@ -265,6 +267,12 @@ def main():
                     if witness: break
             except RuntimeError as ex:
                 pass
+        if witness is None and prop.get("proof_search") and not any(v[1] for v in run.violations):
+            try:
+                r = prop["proof_search"](run, a.tier, rng)
+                if r: witness = (r["lines"], r["what"])
+            except Exception as ex:
+                run.cov.setdefault("notes", []).append("proof_search crashed: %s" % ex)
         note = "broken proof obligations:\n" + "\n".join(broken[:20])
         if witness:
             path = run.write_replay("obligation", witness[0], note + "\nwitness: " + witness[1])
